@@ -273,24 +273,44 @@ func runC12(c *Checker) {
 			key := fmt.Sprintf("ticker|%s.%s (%s)", owner.Obj().Name(), f.Name(), kind)
 			if owner == connNamed {
 				// a Stop on load(F) in the once body, on the F != nil leg at most, dominated by Wait
-				stops := findCalls(body, func(ci ssa.CallInstruction) bool {
+				isStopOfF := func(ci ssa.CallInstruction) bool {
 					sc := ci.Common().StaticCallee()
 					return sc != nil && sc.Name() == "Stop" && len(ci.Common().Args) >= 1 && fieldOfValue(ci.Common().Args[0]) == f
-				})
-				okk, why := false, "created in "+fnName(fn)+" but never stopped in Close: its goroutine/timer outlives the connection"
-				for _, s := range stops {
-					onlyNil := true
-					for _, ft := range factsAt(s.Block()) {
+				}
+				onlyNilFacts := func(b *ssa.BasicBlock) bool {
+					for _, ft := range factsAt(b) {
 						bo, ok := ft.Cond.(*ssa.BinOp)
-						if !(ok && ft.Val && bo.Op == token.NEQ && isNilConst(bo.Y) && fieldOfValue(bo.X) == f) {
-							onlyNil = false
+						if !(ok && ft.Val && bo.Op == token.NEQ && isNilConst(bo.Y) && fieldOfValue(bo.X) != nil) {
+							return false
 						}
 					}
-					if !onlyNil {
+					return true
+				}
+				// (stop call, the instruction of the once body that hosts it: the call itself or the call of a helper)
+				type stopSite struct{ stop, host ssa.CallInstruction }
+				var stops []stopSite
+				for _, s := range findCalls(body, isStopOfF) {
+					stops = append(stops, stopSite{s, s})
+				}
+				for _, hc := range findCalls(body, func(ci ssa.CallInstruction) bool { return true }) {
+					for _, cal := range w.Callees(hc) {
+						if cal == body || w.pkgShort(cal) != targetGBN {
+							continue
+						}
+						for _, s := range findCalls(cal, isStopOfF) {
+							if onlyNilFacts(s.Block()) {
+								stops = append(stops, stopSite{s, hc})
+							}
+						}
+					}
+				}
+				okk, why := false, "created in "+fnName(fn)+" but never stopped in Close: its goroutine/timer outlives the connection"
+				for _, s := range stops {
+					if !onlyNilFacts(s.host.Block()) || (s.stop == s.host && !onlyNilFacts(s.stop.Block())) {
 						why = "stopped only under an unrelated condition"
 						continue
 					}
-					if wait != nil && !instrDominates(wait, s) {
+					if wait != nil && !instrDominates(wait, s.host) {
 						why = "stopped before wg.Wait(): the loops may still use or reset the ticker (send on / close of a torn-down ticker)"
 						continue
 					}
